@@ -1694,6 +1694,10 @@ pub fn c10_hostile(seed: u64) -> Scenario {
                 let spoof = matches!(src, Src::Spoof(_));
                 let cid = match r.below(10) {
                     0..=4 if own.is_some() && !spoof => CidSel::Own(*r.pick(&[0, 0, 0, 1, -1, 2, -2])),
+                    // (connection ids between one address pair are handed out in steps of two:
+                    // from the peer's spoofed address an even distance names ANOTHER honest
+                    // connection exactly, which is a direct attack like distance 0)
+                    0..=5 if spoof => CidSel::Victim(*r.pick(&[1, -1, 3, -3, 0, 5])),
                     0..=5 => CidSel::Victim(*r.pick(&[1, -1, 2, -2, 0, 3])),
                     _ => CidSel::Abs(r.next() as u16),
                 };
